@@ -104,7 +104,7 @@ func TestC01SM(t *testing.T) {
 	runSM(t, smSpec{
 		Name: "TestC01SM", Prop: "C01",
 		Rule: "history of 10-45 generated actions (reconciles of the EDS and of each replica set in any order, kubelet/scheduler steps, pod failures incl. Failed/Unknown phases, duplicate pods, node add/remove/relabel/taint, template edits incl. eligibility-changing templates, canary strategy) over 1-6 nodes, every replica-set sync also run on store forks; monitors create-eligible, create-once, dup-resolution, ineligible-cleanup, unknown-untouched; non-trivial = at least two replica sets synced against the store and a sync read a node with several pods, a pod on an absent/unfit node, or a Failed/Unknown pod; distinct by action trace",
-		Cfg: WorldCfg{MinNodes: 1, MaxNodes: 6, Letters: "ABDEFG", Strategy: gen.StrategyOpts{Canary: 1}, Forks: 2, Affinity: 2, Warmup: 5, StartEdit: 1,
+		Cfg: WorldCfg{MinNodes: 1, MaxNodes: 6, Letters: "ABDEFGH", Strategy: gen.StrategyOpts{Canary: 1}, Forks: 2, Affinity: 2, Warmup: 5, StartEdit: 1,
 			Monitors: mon.Of("create-eligible", "create-once", "dup-resolution", "ineligible-cleanup", "unknown-untouched", "no-panic"),
 			Weights:  weights(defaultWeights(), map[string]int{"pod-dup": 3, "pod-failed": 2, "pod-unknown": 2, "node-relabel": 2, "node-taint": 2, "node-remove": 2, "annotation": 1})},
 		MinSteps: 15, MaxSteps: 70,
@@ -121,7 +121,7 @@ func TestC04SM(t *testing.T) {
 	runSM(t, smSpec{
 		Name: "TestC04SM", Prop: "C04",
 		Rule: "history biased to canaries: canary strategy always present (replicas int or percent), template edits incl. a second edit while a canary runs and eligibility-changing templates, node churn, pause/unpause/valid annotations, every interleaving of the EDS reconcile with active/canary/leftover syncs (each also on store forks); monitors canary-confinement, canary-list-growth, canary-label; non-trivial = canary-role syncs >= 3, >= 2 different replica sets synced and >= 1 pod created while status.canary was set; distinct by action trace",
-		Cfg: WorldCfg{MinNodes: 2, MaxNodes: 6, Letters: "ABCDEFG", Strategy: gen.StrategyOpts{Canary: 2}, Forks: 2, Affinity: 2, Warmup: 5, StartEdit: 2,
+		Cfg: WorldCfg{MinNodes: 2, MaxNodes: 6, Letters: "ABCDEFGH", Strategy: gen.StrategyOpts{Canary: 2}, Forks: 2, Affinity: 2, Warmup: 5, StartEdit: 2,
 			Monitors: mon.Of("canary-confinement", "canary-list-growth", "canary-label", "canary-verdict", "no-panic"),
 			Weights:  weights(defaultWeights(), map[string]int{"edit-template": 4, "round": 6, "rec-ers": 12, "canary-valid": 1, "pod-dup": 1})},
 		MinSteps: 15, MaxSteps: 70,
@@ -290,7 +290,7 @@ func TestC15SM(t *testing.T) {
 	runSM(t, smSpec{
 		Name: "TestC15SM", Prop: "C15",
 		Rule: "history with a canary strategy (replicas int or percent) and node deletion, relabelling and tainting while the canary runs; monitors canary-nodes-valid and canary-list-growth after every EDS reconcile; non-trivial = a canary was in progress during >= 2 EDS reconciles and node churn happened; distinct by action trace",
-		Cfg: WorldCfg{MinNodes: 2, MaxNodes: 7, Letters: "ABDG", Strategy: gen.StrategyOpts{Canary: 2}, Forks: 0, Affinity: 2, Warmup: 4, StartEdit: 2,
+		Cfg: WorldCfg{MinNodes: 2, MaxNodes: 7, Letters: "ABDGH", Strategy: gen.StrategyOpts{Canary: 2}, Forks: 0, Affinity: 2, Warmup: 4, StartEdit: 2,
 			Monitors: mon.Of("canary-nodes-valid", "canary-list-growth", "no-panic"),
 			Weights:  weights(defaultWeights(), map[string]int{"rec-eds": 14, "node-remove": 3, "node-relabel": 3, "node-taint": 3, "node-add": 2, "edit-template": 4})},
 		MinSteps: 12, MaxSteps: 60,
